@@ -10,10 +10,15 @@ def check(tier, seed):
     rep = Report("C12", tier, seed, "proof")
     proof_stage(rep, PROP_MODULE, required=REQUIRED)
     res = idx_corr.run_correspondence(rep, tier, seed)
+    # source level: the same denotations through the WHOLE pipeline (parser, emitter's stack-level bookkeeping between the
+    # dimensions, handlers): ranges / slices / slices of slices of 2 and 3 dimensions whose bounds are variables; every
+    # denoted element and one position beyond each end; expectations computed by progs.denote_family from the denotation
+    import vm_checks
+    src_level = vm_checks.expectation_stage(rep, tier, seed, "idxsrc", want=lambda meta: meta.get("idx"))
     rep.cov.update(trusted_base=["Lean 4.33 kernel", "axioms: propext, Classical.choice, Quot.sound", "h_idx.c harness + idx_corr.py spec oracle", "gcc/ASan"],
                    evaluations=res["ops"], distinct_nontrivial=res["ops"], exhaustive=True,
                    rule="exhaustive small scope (dims<=2/3, extents<=3/4, indices -2..ext+1; all range compositions over a window; strings<=6) + seeded large shapes; each op distinct by construction",
-                   samples=res["samples"], index=dict((k, v) for k, v in res.items() if k != "samples"))
+                   samples=res["samples"], source_level_programs=src_level, index=dict((k, v) for k, v in res.items() if k != "samples"))
     rep.assumptions = ["int overflow in a+c of vm_get_slice_range not modelled (mathematical integers)", "element-wise/matrix arithmetic bodies are not modelled here, only their shape guards"]
     return rep.finish()
 
